@@ -213,13 +213,27 @@ func TestC17_Search(t *testing.T) {
 		var lastArgsQ []string
 		for s := 0; s < nSearch; s++ {
 			var argsQ []string
-			qkind := rapid.SampledFrom([]string{"vocab", "vocab", "vocab", "typo", "recovery", "padded", "split", "verb-first", "verb-first", "rejected-meta", "rejected-blank", "control", "long", "unicode", "repeat", "repeat", "repeat-recased", "repeat-recased", "question", "invalid-utf8"}).Draw(t, "qkind")
+			qkind := rapid.SampledFrom([]string{"vocab", "vocab", "vocab", "typo", "recovery", "padded", "split", "verb-first", "verb-first", "rejected-meta", "rejected-blank", "control", "long", "unicode", "repeat", "repeat", "repeat-recased", "repeat-recased", "question", "invalid-utf8", "long-tail", "long-tail"}).Draw(t, "qkind")
 			w := rapid.SampledFrom(toks)
 			switch qkind {
 			case "vocab":
 				argsQ = []string{gen.TextOf(w, 1, 3).Draw(t, "q")}
 			case "typo":
 				argsQ = []string{gen.Typo(t, w.Draw(t, "w"))}
+			case "long-tail":
+				// a misspelling or a fragment of the LAST word of a 300-700 byte text: only the typo fallback
+				// answers, and with a match quality so low that every printed score is exactly 0
+				argsQ = []string{gen.Typo(t, w.Draw(t, "w"))}
+				for i := range cmds {
+					if tail := gen.LongTail(&cmds[i]); len(tail) >= 3 {
+						if rapid.Bool().Draw(t, "tail-typo") {
+							argsQ = []string{gen.Typo(t, tail)}
+						} else {
+							argsQ = []string{tail[:rapid.IntRange(2, len(tail)-1).Draw(t, "tail-frag")]}
+						}
+						break
+					}
+				}
 			case "recovery":
 				argsQ = []string{"zzqxj " + w.Draw(t, "w")[:2]}
 			case "padded":
